@@ -7,7 +7,7 @@ import itertools
 import numpy as np
 import z3
 
-from .core import SBool, SInt, SReal, cur, refute, rv, terms
+from .core import SBool, SInt, SReal, cur, refute, rv, solve, terms
 
 _MISSING = object()
 
@@ -60,7 +60,8 @@ class GramCut:
     minors >= 0).  Unmatched calls fall through to the real term.
     """
 
-    def __init__(self, vectors: dict, real_dot, real_norm, prefix="G"):
+    def __init__(self, vectors: dict, real_dot, real_norm, prefix="G", sums=False):
+        self.sums = sums  # also recognise a product of stacked vectors: the sum of two Gram entries (e.g. position block + velocity block)
         self.names = list(vectors)
         self.vecs = [np.asarray(vectors[n], dtype=object) for n in self.names]
         self.real_dot, self.real_norm = real_dot, real_norm
@@ -92,18 +93,63 @@ class GramCut:
                 cs.append(det >= 0)
         return cs
 
+    def _point(self, ts):
+        """A model of the path's assumptions at which the variables the assumptions do not mention take fixed, unremarkable rational values: two terms
+        that differ there are not equal under the assumptions (used to skip hopeless matching queries; sound: it only ever rules candidates out)."""
+        from fractions import Fraction
+
+        from .core import free_vars
+
+        p = cur()
+        bound = set()
+        for c in p.assumes:
+            bound |= free_vars(c)
+        free = set()
+        for t in ts:
+            free |= free_vars(t)
+        pins = [z3.Real(n) == rv(Fraction(7 + 3 * k * k % 11, 5 + k % 7) * (-1 if k % 3 == 1 else 1)) for k, n in enumerate(sorted(free - bound))]
+        # variables the assumptions do constrain (cos/sin pairs, square roots ...): away from special values where the assumptions allow it (greedy)
+        for k, n in enumerate(sorted(free & bound)):
+            for val in (Fraction(3 + k % 2, 5 + 2 * (k % 2)), Fraction(-5, 13), Fraction(11 + k, 7)):
+                if solve(list(p.assumes) + pins + [z3.Real(n) == rv(val)], 1000).status == "sat":
+                    pins.append(z3.Real(n) == rv(val))
+                    break
+        v = solve(list(p.assumes) + pins, 5000)
+        return v.model if v.status == "sat" else None
+
+    @staticmethod
+    def _differ_at(m, a, b):
+        if m is None:
+            return False
+        try:
+            return z3.is_false(z3.simplify(m.eval(a, model_completion=True) == m.eval(b, model_completion=True)))
+        except z3.Z3Exception:
+            return False
+
     def _match(self, t, squared=False):
         """Return cut term equal to t (or whose square is t*t)."""
         p = cur()
         n = len(self.names)
+        m = self._point([t] + [self.poly[i][j] for i in range(n) for j in range(i, n)]) if self.sums else None
         for i in range(n):
             for j in range(i, n):
                 for sgn in (1, -1):
+                    if self._differ_at(m, t, sgn * self.poly[i][j]):
+                        continue
                     goal = (t == sgn * self.poly[i][j])
                     v = refute(goal, p.assumes, 5000)
                     self.lemmas += 1
                     if v.status == "unsat":
                         return sgn * self.G[i][j]
+        if self.sums:
+            ents = [(i, j) for i in range(n) for j in range(i, n)]
+            for (i, j), (k, l) in itertools.combinations(ents, 2):
+                if self._differ_at(m, t, self.poly[i][j] + self.poly[k][l]):
+                    continue
+                v = refute(t == self.poly[i][j] + self.poly[k][l], p.assumes, 5000)
+                self.lemmas += 1
+                if v.status == "unsat":
+                    return self.G[i][j] + self.G[k][l]
         return None
 
     def dot(self, a, b, *args, **kw):
@@ -124,7 +170,10 @@ class GramCut:
         p = cur()
         # r is a sqrt variable with r*r == poly: match the square
         n = len(self.names)
+        m = self._point([r.t] + [self.poly[i][i] for i in range(n)]) if self.sums else None
         for i in range(n):
+            if self._differ_at(m, r.t * r.t, self.poly[i][i]):
+                continue
             v = refute(r.t * r.t == self.poly[i][i], p.assumes, 5000)
             self.lemmas += 1
             if v.status == "unsat":
@@ -134,6 +183,19 @@ class GramCut:
                     self._sqrt[i] = s
                 self.matched.append("norm")
                 return SReal(self._sqrt[i])
+        if self.sums:
+            for i, k in itertools.combinations(range(n), 2):
+                if self._differ_at(m, r.t * r.t, self.poly[i][i] + self.poly[k][k]):
+                    continue
+                v = refute(r.t * r.t == self.poly[i][i] + self.poly[k][k], p.assumes, 5000)
+                self.lemmas += 1
+                if v.status == "unsat":
+                    if (i, k) not in self._sqrt:
+                        s = z3.Real(f"nrm_{self.names[i]}+{self.names[k]}")
+                        p.assume(z3.And(s > 0, s * s == self.G[i][i] + self.G[k][k]))
+                        self._sqrt[(i, k)] = s
+                    self.matched.append("norm")
+                    return SReal(self._sqrt[(i, k)])
         self.unmatched.append(str(r.t)[:80])
         return r
 
